@@ -6,6 +6,7 @@ mod corrupt;
 mod crash;
 mod fault;
 mod filterfmt;
+mod iterfmt;
 mod hist;
 mod lockfmt;
 mod logfmt;
@@ -545,6 +546,7 @@ fn main() {
         "lockfmt" => lockfmt::cmd(&m),
         "tablefmt" => tablefmt::cmd(&m),
         "filterfmt" => filterfmt::cmd(&m),
+        "iterfmt" => iterfmt::cmd(&m),
         _ => {
             eprintln!("usage: rainverif <hist> [--seed N --runs N --out DIR ...]");
             2
